@@ -156,10 +156,12 @@ def matrix_cases(r):
                 lines += [gl.make_cmd(spec), "#eff ", OBS, "load g smooth", OBS, "begin g"]
                 ty = r.choice(["level", "iptotal", "iphyperbolic"])
                 first = True
-                for _ in range(3):
+                for rnd in range(3):
                     c = "cand g aw %s aw: %s%s" % (ty, " ".join(["1"] * d), gl.kv("ll:", L) if first else "")
+                    if rnd > 0 and k % 2 == 1:      # the output-based overload, no limits passed: the stored ones must apply
+                        c = "cand g out %s 0" % r.choice(["iptotal", "iphyperbolic"])
                     first = False
-                    lines += [c, "#eff " + " ".join(map(str, L)), OBS, "deliver g smooth idx: %s" % " ".join(map(str, range(12))), OBS]
+                    lines += [c, "#eff " + " ".join(map(str, L)), OBS, "deliverall g smooth 12", OBS]
                 lines += ["finish g", OBS]
                 out.append((cid, spec, lines))
     return out
